@@ -36,7 +36,7 @@ def run(ctx: Ctx):
     data = logicobl.regenerate()
     from .c02 import write_obligations
     write_obligations(sorted(n for n, d in data.items() if 'fatal' not in d))
-    res = logicobl.obligations(ctx, ['sound_core', 'rules_sound', 'c01_valid_sound'], extra_modules=['Ptx.Props.C09', 'Ptx.Gen.ObHintikka'])
+    res = logicobl.obligations(ctx, ['sound_core', 'rules_sound', 'c01_valid_sound'], extra_modules=['Ptx.Props.C09'] + write_obligations.modules)
     names = sorted(n for n, d in data.items() if 'fatal' not in d)
     rng = ctx.rng
     nargs = ctx.scale(5, 60)
